@@ -49,7 +49,7 @@ unsigned long xvu_stat_calls;                    /* stat(2) calls; may wrap */
 #define xvu_opendir_path_ok xvu_dir.path_ok      /* the name given to the last opendir() was a C string (terminated inside its object) */
 #define XVU_DIR_ASSIGNS xvu_dir, __CPROVER_object_whole(&xvu_dirent), xvu_str[4]
 #ifndef XVU_NS_CAP
-#define XVU_NS_CAP 255     /* NAME_MAX: the buffer ut_self_net_ns is documented to need, and gets from finalize_tls_conf */
+#define XVU_NS_CAP 256     /* NAME_MAX + 1: the buffer ut_self_net_ns is documented to need, and gets from finalize_tls_conf (fix d7ce527; it was NAME_MAX) */
 #endif
 /* xcmc / common_ctl ghosts */
 struct xvu_fmt_s { unsigned long calls; int ret; size_t cap; };                /* snprintf of ctl_derive_path */
@@ -605,6 +605,16 @@ ssize_t recv(int fd, void *buf, size_t len, int flags)
         __CPROVER_assume(xvu_rx.attrs_len <= CTL_PROTO_MAX_ATTRS);
 #elif defined(XVU_ATTRS_BIG)
         __CPROVER_assume(xvu_rx.attrs_len > CTL_PROTO_MAX_ATTRS);
+#endif
+#ifndef XVU_HOSTILE_PEER
+        /* A(honest peer).  The peer of libxcmctl is libxcm's own ctl.c, and unit ctl PROVES its replies well formed: a get_attr_cfm carries
+         * value_len <= 512 (process_get_attr), a get_all_attr_cfm at most 64 attributes, each with value_len <= 512 and a NUL-terminated name
+         * (add_attr.table_bound and its assigns obligations).  C14's adversary is the CLIENT; what a hostile APPLICATION could do to the client
+         * library is outside the property.  -DXVU_HOSTILE_PEER lifts the assumption: xcmc_attr_get / xcmc_attr_get_all then fail (they trust
+         * value_len, attrs_len and the name fields of the reply) - reported in DESIGN.md 9 as an observation, not as a violation of C14. */
+        __CPROVER_assume(m->type != ctl_proto_type_get_attr_cfm || m->get_attr_cfm.attr.value_len <= CTL_ATTR_VALUE_MAX);
+        /* (the corresponding assumption for the 64 entries of a get_all_attr_cfm could not be made effective on the 38 KB union - see
+         * harness/utilctl/hostile_peer/README: xcmc_attr_get_all is therefore not under contract) */
 #endif
         xvu_rx.val_mc = 0;
         if (xv_mc < CTL_ATTR_VALUE_MAX) xvu_rx.val_mc = ((const struct ctl_proto_msg *)buf)->get_attr_cfm.attr.any_value[xv_mc];   /* typed read */
